@@ -116,6 +116,8 @@ def gen_pool(rng, index, n_ids, max_versions, kinds, digits_mixed=False, version
             e['big'] = rng.choice([9000, 20000, 70000])      # serialises to more than one write buffer
         if upper_ids and kind in ('sdo', 'identity', 'unreg', 'custom') and rng.random() < upper_ids:
             e['id_case'] = rng.choice(['upper', 'upper', 'mixed'])
+        if upper_ids and kind in ('sdo', 'identity', 'custom') and rng.random() < 0.5:
+            e['dt_off'] = rng.choice([330, -480, 60, 765, -1])       # minutes east of UTC
         pool.append(e)
     return pool
 
@@ -306,12 +308,27 @@ class StoreWorld(object):
         return self.M if name == 'M' else self.F
 
     # -- building inputs ---------------------------------------------------
+    def with_offset_datetimes(self, src, e, n):
+        """For entries marked `dt_off`, every other version: the caller gives created / modified as datetime OBJECTS with a
+        non-zero UTC offset (the same instants) - what counts everywhere is the instant, not the wall-clock digits."""
+        off = e.get('dt_off')
+        if off is not None and n % 2 == 0:
+            import datetime as _dt
+            tz = _dt.timezone(_dt.timedelta(minutes=off))
+            for name in ('created', 'modified'):
+                if isinstance(src.get(name), str):
+                    us = tsparse.us_of(src[name])
+                    src[name] = (_dt.datetime(1970, 1, 1, tzinfo=_dt.timezone.utc) + _dt.timedelta(microseconds=us)).astimezone(tz)
+            self.world.probe('timestamps_given_as_datetimes_with_utc_offset')
+        return src
+
     def make_input(self, k, j, form):
         """Returns (value to hand to add, json dict) or (None, json) if the object cannot be built."""
         d = content(self.pool, k, j)
         e = self.pool[k % len(self.pool)]
         if form == 'obj' and e['kind'] != 'unreg':
-            o = call(self.stix2.parse, C._copy(d), allow_custom=True)
+            src = self.with_offset_datetimes(C._copy(d), e, k + j)
+            o = call(self.stix2.parse, src, allow_custom=True)
             if not o.ok or isinstance(o.value, dict):
                 self.world.stat('build_failed')
                 return None, d
